@@ -81,4 +81,25 @@ theorem ruby_category_refuted :
 example : category [] [72, 111, 103, 101] = category [] [90, 101, 100] ∧ category [] [97, 98, 99] = category [] [120, 121] := by
   refine ⟨?_, ?_⟩ <;> rfl
 
+/-! ## names that bind (`IsVariableIdentifier`: case/in patterns, block and method parameters) -/
+
+/-- Ruby's category "local variable name": the first byte is a lower-case letter or `_` -/
+def localName (n : List Rune) : Prop := firstByte n = 95 ∨ isLower (firstByte n) = true
+
+/-- every name of the local-variable category binds — `_tmp` exactly like `tmp` or `t` -/
+theorem local_names_bind (n : List Rune) (hne : n ≠ []) (h : localName n) : isVariableIdent n = true := by
+  unfold isVariableIdent
+  have : (n != []) = true := by simpa using hne
+  rcases h with h | h <;> simp [this, h]
+
+/-- so renaming a local to any fresh name of the same category keeps its binding behaviour -/
+theorem rename_preserves_binding (n m : List Rune) (hn : n ≠ []) (hm : m ≠ []) (h1 : localName n) (h2 : localName m) :
+    isVariableIdent n = isVariableIdent m := by
+  rw [local_names_bind n hn h1, local_names_bind m hm h2]
+
+example : localName [95, 110, 117, 109] ∧ isVariableIdent [95, 110, 117, 109] = true := by
+  constructor
+  · left; decide
+  · decide
+
 end RubyTi.C13
